@@ -1,49 +1,16 @@
-"""C12 — a mounted layer stays usable; a released layer gives back all its resources."""
-import os
-import re
+"""C12 — a mounted layer stays usable; a released layer gives back all its resources.
 
-import vlib
-
-
-def _facts(ctx):
-    """Structural tie for the premises the model records (regenerated from the sources each run):
-    Resolve takes the per-name lock first and releases it by defer (=> `resolve` is atomic per name);
-    both OnEvicted callbacks are the ones modelled (layer.close / Blob.Close); layer.close releases
-    the blob reference with done(true) by defer after setting closed; Done/Close are done(false/true)."""
-    try:
-        src = open(os.path.join(vlib.REPO, "fs/layer/layer.go")).read()
-    except OSError:
-        ctx.broken.append("fact:missing:fs/layer/layer.go")
-        return
-    want = {
-        "resolve-lock-first":
-            r"func \(r \*Resolver\) Resolve\([^\n]*\{\s*\n\s*name := refspec\.String\(\) \+ \"/\" \+ desc\.Digest\.String\(\)\s*\n"
-            r"(?:\s*//[^\n]*\n|\s*\n)*\s*r\.resolveLock\.Lock\(name\)\s*\n\s*defer r\.resolveLock\.Unlock\(name\)\s*\n",
-        "layer-onevicted-close":
-            r"layerCache\.OnEvicted = func\(key string, value any\) \{\s*\n\s*if err := value\.\(\*layer\)\.close\(\); err != nil",
-        "blob-onevicted-close":
-            r"blobCache\.OnEvicted = func\(key string, value any\) \{\s*\n\s*if err := value\.\(remote\.Blob\)\.Close\(\); err != nil",
-        "close-releases-blob":
-            r"func \(l \*layer\) close\(\) error \{\s*\n\s*l\.closedMu\.Lock\(\)\s*\n\s*defer l\.closedMu\.Unlock\(\)\s*\n\s*if l\.closed \{\s*\n"
-            r"\s*return nil\s*\n\s*\}\s*\n\s*l\.closed = true\s*\n\s*defer l\.blob\.done\(true\)",
-        "done-false": r"func \(l \*layerRef\) Done\(\) \{\s*\n\s*l\.done\(false\)",
-        "close-true": r"func \(l \*layerRef\) Close\(\) error \{\s*\n\s*l\.done\(true\)",
-        "same-key-both-caches":
-            r"func \(r \*Resolver\) resolveBlob\([^\n]*\{\s*\n\s*name := refspec\.String\(\) \+ \"/\" \+ desc\.Digest\.String\(\)",
-    }
-    n = 0
-    for name, rx in want.items():
-        if re.search(rx, src):
-            n += 1
-        else:
-            ctx.broken.append(f"fact:{name}")
-    ctx.cov["facts_checked"] += n
+No textual pin on the sources of /repo: the premises the model records (Resolve of one name is
+serialised before the cache lookup; both caches are keyed consistently; close releases the blob
+with eviction) are observed on the running code — concurrent resolvers of one cold / one stale name
+must build exactly one layer and share it (also under the race detector in the thorough tier),
+reclamation empties both caches and both directories — so a rewrite that keeps the behaviour keeps
+the check silent and one that breaks it yields a concrete failing history."""
 
 
 def run(ctx):
     ctx.lean_obligations(["SV.Props.C12"], drivers=["svdriver_c12"])
     quick = ctx.tier == "quick"
-    _facts(ctx)
     b = ctx.go_test_binary("fs/layer", "h_layer")
     if b:
         ctx.correspond(b, "TestVerifC12", "svdriver_c12", "c12",
@@ -57,10 +24,10 @@ def run(ctx):
             ctx.correspond(br, "TestVerifC12Conc", "svdriver_c12", "c12conc", env={"VERIF_N": 40})
     return ctx.finish(
         level="proof",
-        rule="16 scripted edge histories (shared instance, expiry under a holder, failed blob resolution and failed "
+        rule="18 scripted edge histories (shared instance, expiry under a holder, failed blob resolution and failed "
              "metadata read on an empty cache and while an older holder shares the blob, failing connectivity check "
              "with and without holders, failing blob check, blob expired before/after the layer, Close while others "
-             "hold, double Done, Refresh ok/failing/after release, two names), then random histories of 8-48 ops over "
+             "hold, double Done, Refresh ok/failing/rejected-because-other-source/after release, an old holder closing after its layer was replaced, two names), then random histories of 8-48 ops over "
              "1-3 layers on a fresh layer.Resolver (Resolve with a 4-bit failure oracle, Done, Close, timer expiry of "
              "either cache, Refresh, reads through a fresh and through an old root node), each drained and "
              "re-resolved at the end; a history is distinct by (names, failure rate, op-kind sequence); every op is "
@@ -68,11 +35,12 @@ def run(ctx):
              "directories, per-layer status changes closed/reader/metadata/fs cache/blob/http cache) and the oracle "
              "checks held => open and readable, sharing without eviction, reclamation after release+eviction, "
              "nothing left by a failed Resolve, fresh working instance afterwards"
-             + ("; plus 6 rounds of an oracle-only concurrent stress (6 resolvers of one name share one resolved "
-                "instance, holders read while others release/expire, everything reclaimed at the end)" if quick
+             + ("; plus 6 rounds of an oracle-only concurrent stress (6 resolvers of one cold name, then of one name whose cached layer "
+                "just turned stale, share one resolved instance built once; holders read while others release/expire, everything reclaimed at the end)" if quick
                 else "; plus 40 rounds of that concurrent stress under the race detector"),
         assumptions=[
-            "Resolve holds the per-name lock for its whole body (checked each run on the sources) and its cache "
+            "Resolve of one name is serialised from before the cache lookup to the end (per-name lock; observed each "
+            "run by the concurrent cold/stale-name phases: exactly one layer is built and shared) and its cache "
             "accesses commute with other goroutines' done/timer operations, so resolve is one atomic operation",
             "both TTL caches satisfy C10 (reused model and theorems); their methods are atomic under the cache mutex",
             "newCache/MkdirTemp do not fail; the failures considered are connectivity checks, registry failures "
